@@ -18,7 +18,9 @@ RULE = ("exhaustive blocks: every distance 0..2^(np)-1 of every (n, p) with 2^(n
 ASSUMPTIONS = ["np <= 62 bits", "scalar entry points may modify the coordinate array passed in "
                "(the statement does not forbid it); the harness passes copies"]
 DECIDING_COUNTERS = ["cells_roundtrip", "cells_reference"]
-EXHAUSTIVE = {"quick": True, "thorough": True}
+# complete sweeps are per (n, p) block (listed under extra.exhaustive_blocks); the whole space of the
+# property (all p up to 31 / 62 / 20) is not enumerated, so the top-level flag stays false
+EXHAUSTIVE = {"quick": False, "thorough": False}
 
 PMAX = {1: 62, 2: 31, 3: 20}
 
